@@ -483,25 +483,33 @@ class C03(Prop):
     level_text = ("Lean 4 theorems: every LpcOps operator case (transcribed from eval_instruction / operator.c after the "
                   "fix commits) equals the reference semantics on all operands; op=, ++/--, index, range, lvalue forms; "
                   "constant folding and the grammar's rewrites are sound; literal encodings round-trip for all int64; "
-                  "switch table lookup equals the first matching arm.  Whole programs: generated typed programs in sibling "
+                  "switch table lookup equals the first matching arm; FULL statements (no excluded region) for stores through index "
+                  "lvalues incl. a zero byte into a buffer (lvset_agrees) and for all `<` ranges at all int64 bounds (range_agrees, "
+                  "extract_agrees: the regenerated saturating helper range_from_end () never overflows and selects the reference range).  "
+                  "Whole programs: generated typed programs in sibling "
                   "spellings run in the real driver and must equal the LpcOps-based evaluator exactly; the reference "
                   "evaluator judges every result")
     level_note = ("no compiler-correctness theorem for generate.c / icode.c (whole programs by correspondence only); reals are "
-                  "abstract in the theorems (FloatOps) and IEEE doubles in the driver; identity/aliasing of arrays and "
-                  "mappings, string switch tables (address order) and shift counts outside 0..63 are outside the model")
-    rule = ("cases = corpus + known-finding inputs + boundary list + seeded random cases from 18 families (binary/unary "
+                  "abstract in the theorems (FloatOps) and IEEE doubles in the driver; in-place fast paths keyed on reference counts "
+                  "(add_array, string join, absorb / compose_mapping) are compared on generated self / aliased operand programs only "
+                  "(no heap model); shift counts outside 0..63 are outside the model")
+    rule = ("cases = corpus + known-finding inputs + boundary list + seeded random cases from 19 families (binary/unary "
             "operators, op=, ++/--, index, range, index/range/char lvalues, integer / nested / string switches, loops, local / "
             "inherited / function-pointer calls, macros vs hand expansion, literals, zero-comparison rewrites, mapping algebra "
-            "around every growMap threshold, unit traces of the mapping table and of handle_define) over the boundary value set "
+            "around every growMap threshold, self-operand / aliased-operand / freshness forms of the container and string operators "
+            "(x op= x, x = x op x, a second reference held before, the alias as operand; local, global, array element, mapping value), "
+            "unit traces of the mapping table and of handle_define) over the boundary value set "
             "(int64 extremes, mixed int/float, empty and multibyte strings, containers across hash-table thresholds); each "
             "program has 2..12 sibling functions; 14 negative traces check the oracle on every run; a case is "
             "non-trivial when at least one function returns a value (not an error); distinct = distinct canonical trace")
-    not_covered = ["aliasing / identity of arrays and mappings (== on containers, shared references)",
-                   "string-label switch tables are modelled as equality lookup (the table is sorted by string address)",
+    not_covered = ["identity of arrays and mappings: == on containers, stores seen through a shared reference (b = a; a[0] = 1) - the "
+                   "reference evaluates by value, the generator only produces programs where LPC promises value semantics (self / aliased "
+                   "operands and freshness of results are generated and judged; there is no heap-level theorem)",
+                   "class members as operands of the self-operand forms; `&` / `|` on arrays",
                    "shift counts outside 0..63 (C undefined behaviour; the model uses the x86 masking)",
                    "sign of a floating zero produced by folded `0 - x`",
                    "`-=` on char lvalues (documented as supported, raises 'Bad left type to -=')",
-                   "mapping hash-table growth is exercised by correspondence only (no table-level theorem)"]
+                   "open findings (language definition debatable): num-opeq-real, addeq-num-str, optimistic-types"]
 
     def gen_extra(self, ctx, bdir):
         """T4-style tie: the condition under which handle_define (lib/lpc/lex.c) replaces a body identifier by the marker of
@@ -530,7 +538,7 @@ class C03(Prop):
                 atoms.append("eqUpTo %s" % q.group(1))
                 continue
             raise X.TieBroken("guard:handle_define", "atom outside the guard grammar: `%s` in `%s`" % (at, cond))
-        guards = self.gen_index_guards(X)
+        guards = self.gen_index_guards(X) + self.gen_range_from_end(X)
         return guards + ("\n/-- C (lib/lpc/lex.c handle_define): a body identifier of length `idlen` is replaced by parameter n iff\n"
                 "    `%s`  (l = strlen (args[n]); `eqUpTo k` = strncmp (args[n], ids, k) == 0) -/\n"
                 "def macroParamMatch (l idlen : Nat) (eqUpTo : Nat → Bool) : Bool := %s\n" % (cond.replace("-/", "- /"), " && ".join(atoms)))
@@ -565,6 +573,79 @@ class C03(Prop):
             out.append("/-- C (src/interpret.c F_INDEX): `%s` raises \"%s\" (n = the 64-bit index, size = number of elements) -/\n"
                        "def indexGuard%s (n size : Int) : Bool := %s\n" % (cond.replace("-/", "- /"), msg, name, " || ".join(atoms)))
         return "\n" + "\n".join(out)
+
+    def gen_range_from_end(self, X):
+        """T4: the helper `range_from_end ()` of lib/lpc/operator.c (position of a `<i` range bound) is transcribed into
+        `NV.Gen.C03.rangeFromEnd` - every C int64 operation becomes `wrap (..)`, so an overflowing variant does not pass the
+        bridging lemma `rangeFromEnd_spec` (Props3.lean) - and every `<` site of f_range / f_extract_range must call it."""
+        import re
+        src = open(os.path.join(E.REPO, "lib/lpc/operator.c")).read()
+        m = re.search(r"static int64_t range_from_end \(int64_t len, int64_t i\) \{\s*if \((.*?)\)\s*return (.*?);\s*return (.*?);\s*\}", src, re.S)
+        if not m:
+            raise X.TieBroken("guard:range_from_end", "helper range_from_end (len, i) not found / not of the form `if (c) return a; return b;`")
+
+        def expr(t):
+            toks = re.findall(r"\s*(INT64_MAX|INT64_MIN|len|i|\d+|[-+()])", t)
+            if "".join(toks) != "".join(t.split()):
+                raise X.TieBroken("guard:range_from_end", "expression outside the grammar: `%s`" % t)
+            pos = [0]
+
+            def atom():
+                k = toks[pos[0]]
+                pos[0] += 1
+                if k == "(":
+                    v = summ()
+                    if toks[pos[0]] != ")":
+                        raise X.TieBroken("guard:range_from_end", "unbalanced: `%s`" % t)
+                    pos[0] += 1
+                    return v
+                if k == "-":
+                    return "w64 (-%s)" % atom()
+                if k == "INT64_MAX":
+                    return "9223372036854775807"
+                if k == "INT64_MIN":
+                    return "(-9223372036854775808)"
+                if k in ("len", "i") or k.isdigit():
+                    return k
+                raise X.TieBroken("guard:range_from_end", "unexpected token `%s` in `%s`" % (k, t))
+
+            def summ():
+                v = atom()
+                while pos[0] < len(toks) and toks[pos[0]] in "+-":
+                    op = toks[pos[0]]
+                    pos[0] += 1
+                    v = "w64 (%s %s %s)" % (v, op, atom())
+                return v
+            try:
+                v = summ()
+            except IndexError:
+                raise X.TieBroken("guard:range_from_end", "truncated expression `%s`" % t)
+            if pos[0] != len(toks):
+                raise X.TieBroken("guard:range_from_end", "trailing tokens in `%s`" % t)
+            return v
+        cond = " ".join(m.group(1).split())
+        c = re.fullmatch(r"(.*?) (<=|>=|<|>) (.*)", cond)
+        if not c:
+            raise X.TieBroken("guard:range_from_end", "test outside the grammar: `%s`" % cond)
+        op = {"<": "<", "<=": "≤", ">": ">", ">=": "≥"}[c.group(2)]
+        lean = "if %s %s %s then %s else %s" % (expr(c.group(1)), op, expr(c.group(3)), expr(m.group(2)), expr(m.group(3)))
+        # the nine `<` sites
+        sites = []
+        for fn, nxt in (("f_range", "f_extract_range"), ("f_extract_range", "f_rsh")):
+            b = re.search(r"\nvoid %s \(int code\) \{(.*?)\nvoid %s \(" % (fn, nxt), src, re.S)
+            if not b:
+                raise X.TieBroken("guard:range_from_end", "%s not found in lib/lpc/operator.c" % fn)
+            for g in re.finditer(r"if \((code(?: & 0x[01]+)?)\)\s*([^;]*);", b.group(1)):
+                st = " ".join(g.group(2).split())
+                if not re.fullmatch(r"(to|from) = range_from_end \((len|v->size), \1\)", st):
+                    raise X.TieBroken("guard:range_from_end", "%s: `<` bound computed by `%s` instead of range_from_end ()" % (fn, st))
+                sites.append((fn, g.group(1), st))
+        if len(sites) != 9:
+            raise X.TieBroken("guard:range_from_end", "expected 9 `<` sites in f_range / f_extract_range, found %d" % len(sites))
+        return ("\n/-- two's complement int64 wrap-around of a C operation -/\ndef w64 (n : Int) : Int := (n + 2 ^ 63) %% 2 ^ 64 - 2 ^ 63\n"
+                "\n/-- C (lib/lpc/operator.c range_from_end): `if (%s) return %s; return %s;` - every C int64 operation is `w64`;\n"
+                "    used at all %d `<` sites of f_range / f_extract_range -/\n"
+                "def rangeFromEnd (len i : Int) : Int := %s\n" % (cond, m.group(2).strip(), m.group(3).strip(), len(sites), lean))
 
     @staticmethod
     def _balanced(t):
@@ -1580,8 +1661,121 @@ class C03(Prop):
         fns.append([("expr", ("asg", G(0), ("bin", "add", S(b"rt"), I(rng.range(1, 99))))), ("switch", G(0), arms), ("ret", I(0))])
         return make_case(cid, fns, same=same, meta={"origin": "generated", "family": "strswitch"})
 
+    def fam_selfop(self, rng, cid):
+        """SELF-operand and ALIASED-operand forms of the container / string operators: `x op= x`, `x = x op x`, the same
+        with a second reference `b = x` taken before, with `b` as the right operand, with x a sole-holder local, a global,
+        an array element, a mapping value.  The driver has in-place fast paths keyed on reference counts (add_array with
+        p == r && ref == 2, extend_string, absorb_mapping into itself); the reference evaluates by value.  Every sibling
+        returns the same value; a held alias of an array / string / buffer / number must still show the old value."""
+        kind = rng.weighted([("arr", 6), ("str", 3), ("buf", 2), ("map", 3), ("num", 1)])
+        pre = []
+        if kind == "arr":
+            n = rng.choice([0, 1, 2, 3, 4, 5, 7, 8, 9, 16, 31, 100, 127, 128, 255, 256, 300])
+            op = rng.weighted([("add", 5), ("sub", 2)])
+            if n <= 5:
+                mk = lambda: Arr([pick_scalar(rng) for _ in range(n)])
+                v0 = mk()
+                init = lambda h: [("expr", ("asg", h, v0))]
+            else:
+                st = rng.choice([1, 3, -7, 2 ** 32])
+                init = lambda h: [("expr", ("asg", h, ("efun", "allocate", [I(n)]))),
+                                  ("for", ("expr", ("asg", L(LI), I(0))), ("bin", "lt", L(LI), I(n)), ("expr", ("inc", "postinc", L(LI))),
+                                   ("expr", ("asg", ("idx", h, L(LI)), ("bin", "mul", L(LI), I(st)))))]
+        elif kind == "str":
+            op = "add"
+            v0 = S(rng.choice(STRS + [b"x" * 15, b"y" * 16, b"z" * 17, b"w" * 300]))
+            conc = rng.chance(1, 2)      # built at run time (malloc'ed) or the shared literal
+            init = lambda h: [("expr", ("asg", h, ("bin", "add", v0, S(b""))))] if conc else [("expr", ("asg", h, v0))]
+        elif kind == "buf":
+            op = "add"
+            bs = [rng.range(1, 255) for _ in range(rng.choice([0, 1, 2, 7, 8, 40]))]
+            init = lambda h: [("expr", ("asg", h, Buf(bs)))]
+        elif kind == "map":
+            op = rng.weighted([("add", 4), ("mul", 2)])
+            n = rng.choice([0, 1, 2, 5, 6, 7, 12, 13, 25, 26, 60])
+            ko = rng.choice([0, 16, 2 ** 32])
+            if op == "mul":      # compose with itself: values must be keys to give something
+                val = lambda e: ("bin", "add", I(ko), ("bin", "mod", ("bin", "add", e, I(1)), I(max(n, 1))))
+            else:
+                # values that own memory (a malloc'ed string, an array): `m += m` must not free what it copies
+                vk = rng.choice(["int", "str", "arr"])
+                val = {"int": lambda e: ("bin", "mul", e, I(3)), "str": lambda e: ("bin", "add", S(b"v"), e),
+                       "arr": lambda e: Arr([e, S(b"w")])}[vk]
+            init = lambda h: [("expr", ("asg", h, Map([]))),
+                              ("for", ("expr", ("asg", L(LI), I(0))), ("bin", "lt", L(LI), I(n)), ("expr", ("inc", "postinc", L(LI))),
+                               ("expr", ("asg", ("idx", h, ("bin", "add", L(LI), I(ko))), val(L(LI)))))]
+        else:
+            op = rng.choice(["add", "sub", "mul"])
+            v0 = rng.choice([I(pick_int(rng)), Fl(pick_float(rng))])
+            init = lambda h: [("expr", ("asg", h, v0))]
+        alias_ok = kind != "map" or op == "add"      # an alias of a mapping sees `m += ..` (in place by definition)
+        times = rng.choice([1, 1, 2, 3]) if kind != "map" or op == "add" else 1
+        if kind == "arr" and n >= 100:
+            times = 1 if op == "add" else times
+
+        def variants(h, setup, result):
+            """h: the holder lvalue; setup: statements creating the holder's container; result: expression to return"""
+            ini = setup + init(h)
+            rep = lambda st: [st] * times
+            out = []
+            # 0: h op= h (sole holder)        1: h = h op h
+            out.append(ini + rep(("expr", ("aop", op, h, h))) + [("ret", result(None))])
+            out.append(ini + rep(("expr", ("asg", h, ("bin", op, h, h)))) + [("ret", result(None))])
+            # 2: a second reference is held before
+            out.append(ini + [("expr", ("asg", L(B), h))] + rep(("expr", ("aop", op, h, h))) + [("ret", result(None))])
+            # 3: the alias is the right operand
+            out.append(ini + [("expr", ("asg", L(B), h))] + rep(("expr", ("aop", op, h, L(B)))) + [("ret", result(None))]
+                       if times == 1 else ini + [("expr", ("asg", L(B), h))] + rep(("expr", ("asg", h, ("bin", op, h, h)))) + [("ret", result(None))])
+            # 4: the alias is the left operand of the plain operator, the global holds another reference
+            out.append(ini + [("expr", ("asg", G(2), h))] + rep(("expr", ("asg", h, ("bin", op, G(2) if times == 1 else h, h)))) + [("ret", result(None))])
+            # 5: through a function pointer / local call (arguments are further references)
+            if op in ("add", "sub", "mul"):
+                out.append(ini + rep(("expr", ("asg", h, ("call", "f_" + op, [h, h], rng.choice(["local", "fptr"]))))) + [("ret", result(None))])
+            grp = list(range(len(out)))
+            extra = []
+            if alias_ok:
+                # 6, 7: the alias still shows the old value (value semantics of + on arrays, strings, buffers, numbers)
+                out.append(ini + [("expr", ("asg", L(B), h))] + rep(("expr", ("aop", op, h, h))) + [("ret", Arr([result(None), L(B)]))])
+                out.append(ini + [("expr", ("asg", L(B), h))] + rep(("expr", ("asg", h, ("bin", op, h, h)))) + [("ret", Arr([result(None), L(B)]))])
+                extra = [[len(out) - 2, len(out) - 1]]
+            if times == 1:
+                # the value of the op= expression itself
+                out.append(ini + [("ret", ("aop", op, h, h))])
+                out.append(ini + [("ret", ("bin", op, h, h))])
+                extra.append([len(out) - 2, len(out) - 1])
+            if kind in ("arr", "str", "buf", "map") and where in ("local", "global"):
+                # FRESHNESS: `b + empty`, `empty + b`, `b + b`, `b - ({})` are new values - a store into the result must not show
+                # through the operand that is still held (add_array / add_mapping hand the operand itself back only when
+                # nobody else holds it)
+                empty = {"arr": Arr([]), "str": S(b""), "buf": Buf([]), "map": Map([])}[kind]
+                size = {"arr": lambda: n, "str": lambda: len(v0[1][1]), "buf": lambda: len(bs), "map": lambda: 1}[kind]()
+                store = [] if size == 0 else [("expr", ("asg", ("idx", L(D), I(-5) if kind == "map" else I(0)), I(88)))]
+                forms = [("bin", "add", L(B), empty), ("bin", "add", empty, L(B))]
+                if kind == "arr":
+                    forms.append(("bin", "sub", L(B), Arr([])))
+                    forms.append(("bin", "sub", L(B), Arr([S(b"not there")])))
+                k0 = len(out)
+                for f in forms:
+                    out.append(ini + [("expr", ("asg", L(B), h)), ("expr", ("asg", L(D), f))] + store + [("ret", Arr([L(D), L(B), h]))])
+                out.append(ini + init(L(D)) + store + [("ret", Arr([L(D), h, h]))])
+                extra.append(list(range(k0, len(out))))
+            return out, [grp] + extra
+        where = rng.weighted([("local", 4), ("global", 2), ("elem", 3), ("mapval", 2)])
+        if where == "local":
+            fns, same = variants(L(A), [], lambda _: L(A))
+        elif where == "global":
+            fns, same = variants(G(0), [], lambda _: G(0))
+        elif where == "elem":
+            k = rng.choice([0, 1, 2])
+            fns, same = variants(("idx", L(C), I(k)), [("expr", ("asg", L(C), Arr([I(7), I(8), I(9)])))],
+                                 lambda _: L(C))
+        else:
+            key = rng.choice([S(b"k"), I(5), I(2 ** 32)])
+            fns, same = variants(("idx", L(C), key), [("expr", ("asg", L(C), Map([(I(1), I(2))])))], lambda _: ("idx", L(C), key))
+        return make_case(cid, fns, same=same, meta={"origin": "generated", "family": "selfop", "kind": kind, "op": op, "where": where})
+
     FAMS = [("fam_binop", 9), ("fam_unop", 2), ("fam_incdec", 3), ("fam_index", 5), ("fam_range", 5), ("fam_lvalue", 6),
-            ("fam_switch", 6), ("fam_loop", 6), ("fam_assignop", 5), ("fam_literal", 2), ("fam_rewrite", 4), ("fam_macro", 3), ("fam_calls", 5), ("fam_mapalg", 7), ("fam_maptrace", 5), ("fam_macrosubst", 7), ("fam_mdef", 4), ("fam_strswitch", 6)]
+            ("fam_switch", 6), ("fam_loop", 6), ("fam_assignop", 5), ("fam_literal", 2), ("fam_rewrite", 4), ("fam_macro", 3), ("fam_calls", 5), ("fam_mapalg", 7), ("fam_maptrace", 5), ("fam_macrosubst", 7), ("fam_mdef", 4), ("fam_strswitch", 6), ("fam_selfop", 8)]
 
     def generate(self, rng, n, tier):
         out = []
@@ -1604,6 +1798,14 @@ class C03(Prop):
             Bc.append(make_case("b-" + name, fns, same=same, defines=defines, meta={"origin": "boundary", "family": name}))
         two32 = 2 ** 32
         arr3 = Arr([I(10), I(20), I(30)])
+        # a zero byte goes into a buffer element but never into a string - also right after a buffer store (the char lvalue of
+        # strings and buffers is one shared object in interpret.c)
+        mk("lvbyte-buf-then-str", [[("expr", ("asg", L(A), Buf([65, 66]))), ("expr", ("asg", ("idx", L(A), I(0)), I(0))), ("ret", L(A))],
+                                   [("expr", ("asg", L(A), Buf([65, 66]))), ("expr", ("asg", ("idx", L(A), I(0)), I(0))),
+                                    ("expr", ("asg", L(C), ("bin", "add", S(b"abc"), S(b"")))), ("expr", ("asg", ("idx", L(C), I(1)), I(256))), ("ret", L(C))],
+                                   [("expr", ("asg", L(A), Buf([65, 66]))), ("expr", ("inc", "predec", ("idx", L(A), I(0)))),
+                                    ("expr", ("asg", L(C), ("bin", "add", S(b"abc"), S(b"")))), ("expr", ("aop", "add", ("idx", L(C), I(1)), I(158))), ("ret", L(C))],
+                                   [("expr", ("asg", L(C), ("bin", "add", S(b"abc"), S(b"")))), ("expr", ("asg", ("idx", L(C), I(1)), I(0))), ("ret", L(C))]], same=[])
         # (1) x == 0 on a real
         mk("eq0-real", [[("expr", ("asg", L(LX), Fl(0.0))), ("ret", ("bin", "eq", L(LX), I(0)))],
                         [("expr", ("asg", L(A), Fl(0.0))), ("expr", ("asg", L(B), I(0))), ("ret", ("bin", "eq", L(A), L(B)))],
@@ -1677,8 +1879,9 @@ PROP.theorems = ["NV.C03." + t for t in (
     "rewrite_eq_zero_sound", "rewrite_add_zero_sound", "rewrite_not_cond_sound", "rewrite_ne_zero_sound", "literal_roundtrip",
     "while_dec_agrees", "loop_cond_num_agrees", "loop_cond_local_agrees", "switch_direct_agrees",
     "lvset_agrees_partial", "lvset_agrees_repaired", "range_lvalue_agrees", "storeRange_agrees", "cut_eq_slice",
-    "sliceArray_eq_slice", "range_agrees_repaired", "range_quirks_irrelevant", "range_agrees_partial",
-    "extract_agrees_repaired", "extract_quirks_irrelevant", "extract_agrees_partial",
+    "sliceArray_eq_slice", "lvset_agrees", "rangeFromEnd_spec", "rangeFromEnd_cases", "rangeWith_exact_agrees", "cut_sat",
+    "rangeWith_sat", "range_agrees", "range_agrees_repaired", "extractWith_exact_agrees", "extractWith_sat", "extract_agrees",
+    "extract_agrees_repaired",
     "fixup_spec", "bsearch_good", "log2floor_spec", "switch_sorted_agrees", "good_unique",
     "for_eq_while", "loop_forms_agree",
     "HT.grow_lookup", "HT.grow_wf", "HT.insert_lookup_same", "HT.insert_lookup_other", "HT.insert_wf",
